@@ -137,3 +137,93 @@ def run(rec, F):
         rec.inst(R, "push_exception_handler: (offset, frame_count(), slot_depth)", ok=ok, loc=peh.loc)
         if not ok:
             rec.finding(R, "F4.exc/push-handler-fields", "push_exception_handler does not record (offset, current frame count, slot_depth) in that order", loc=peh.loc, fn=peh.path)
+
+
+# ---------------------------------------------------------------------------
+# F4.native-env — natives that can run user code must run on their own frame
+
+import collections
+import re as _re
+
+_REENTER = _re.compile(r"laythe_core::hooks::(Hooks|ValueHooks)(::<'a>)?::(call|call_method)$|laythe_core::hooks::ValueContext::(call|call_method)$")
+
+# natives whose only re-entrant call provably runs library code; one line of reason each
+NATIVE_ENV_EXCEPTIONS = {
+    "MethodName": "calls the built-in name() method of the callable wrapped by a bound method (a native of the Closure/Fun/Native classes); no user code runs",
+}
+
+
+def run_native_env(rec, F, S):
+    from .. import natives
+    R = rec.rule("F4.native-env", "a native that can re-enter the interpreter with a user supplied callable (Hooks::call / call_method reached directly, through helpers, or through Enumerate::next of the lazy map/filter iterators) is declared .with_stack(): only then does call_native push the stub frame that makes Fiber::stack_unwind stop at the native boundary (handler.call_frame_depth() >= bottom_frame) instead of resuming a handler of the calling frame inside the nested execute loop, which leaves the aborted native to be re-entered at the next return")
+    rows, problems = natives.table(F, S)
+    cn = F.fn("laythe_vm::vm::ops::<impl laythe_vm::vm::Vm>::call_native")
+    su = F.fn("laythe_vm::fiber::Fiber::stack_unwind")
+    if cn is None or su is None or not rows:
+        rec.anchor_lost("F4.native-env", "Vm::call_native / Fiber::stack_unwind / native table")
+        return
+    # the mechanism the rule rests on: the Normal arm pushes a frame, the StackLess arm does not
+    pf = [bi for bi, t in cn.calls() if lastseg(t["f"]) == "push_frame"]
+    rec.inst(R, "call_native pushes a stub frame for NativeEnvironment::Normal only", ok=len(pf) == 1, loc=cn.loc)
+    if len(pf) != 1:
+        rec.unan(R, "call_native no longer has exactly one push_frame; re-derive the rule")
+        return
+    impl_of = collections.defaultdict(list)
+    for im in F.impls:
+        if im.get("trait"):
+            for it in im["items"]:
+                impl_of[(im["trait"].split("<")[0], it["name"])].append(it["path"])
+    allf = {f.path: f for f in F.all_fns() if f.crate in ("laythe_lib", "laythe_core")}
+    edges = collections.defaultdict(set)
+    seeds = {}
+    for p, f in allf.items():
+        for bi, t in f.calls():
+            if _REENTER.search(t["f"]):
+                if p.startswith("laythe_core::hooks::"):
+                    continue
+                i = 1 if lastseg(t["f"]) == "call" else 2
+                d = str(sem.desc_operand(f, t["args"][i])) if len(t["args"]) > i else "?"
+                # raising a library error constructs it by calling the class stored in the native at start-up
+                if _re.match(r"\('field', \('arg', 1\), \('error',\)", d):
+                    continue
+                seeds.setdefault(p, loc_of(t["sp"]))
+                continue
+            if t.get("dyn"):
+                d = t.get("decl") or t["f"]
+                tr, _, m = d.rpartition("::")
+                for ip in impl_of.get((tr.split("<")[0], m), []):
+                    edges[p].add(ip)
+            else:
+                edges[p].add(t["f"])
+        for c in F.closures_of(f):
+            edges[p].add(c.path)
+
+    def path_to_seed(src):
+        q, seen = [(src, [src])], {src}
+        while q:
+            x, pp = q.pop(0)
+            if x in seeds:
+                return pp
+            for y in sorted(edges[x]):
+                if y in allf and y not in seen:
+                    seen.add(y)
+                    q.append((y, pp + [y]))
+        return None
+    n_re = 0
+    for r in rows:
+        if r["meta"] is None:
+            continue
+        pp = path_to_seed(r["fn"].path)
+        if pp is None:
+            continue
+        n_re += 1
+        name = r["name"]
+        if name in NATIVE_ENV_EXCEPTIONS:
+            rec.inst(R, "%s: exception (%s)" % (name, NATIVE_ENV_EXCEPTIONS[name]), ok=True, loc=r["fn"].loc)
+            continue
+        ok = r["meta"]["stack"]
+        rec.inst(R, "%s: re-entrant via %s" % (name, lastseg(pp[-1]) if len(pp) > 1 else "its own body"), ok=ok, loc=r["fn"].loc)
+        if not ok:
+            via = " -> ".join(_re.sub(r"laythe_(lib|core)::(global::primitives::)?", "", x) for x in pp[1:]) or "its own body"
+            rec.finding(R, "F4.native-env/%s" % name, "native %s (\"%s\") can run a user callable (%s) but is not declared .with_stack(): an error raised by the callable is delivered to a try of the calling frame inside the nested interpreter loop, the catch clause runs, and the next return at that depth resumes the aborted native (the rest of the program runs inside it; a second error escapes every handler)" % (name, r["meta"]["name"], via), loc=r["fn"].loc, fn=r["fn"].path)
+    rec.floor(R, "natives that can re-enter the interpreter with user code", n_re, 20)
